@@ -3,6 +3,7 @@ package namesys
 import (
 	"context"
 	"errors"
+	"math"
 	"strings"
 	"sync"
 	"time"
@@ -188,6 +189,11 @@ func (p *IPNSPublisher) updateRecord(ctx context.Context, k crypto.PrivKey, valu
 				// value changes.
 				// TODO: also compare Data field (https://specs.ipfs.tech/ipns/ipns-record/#extensible-data-dag-cbor)
 				// if we ever expose ability to set custom CBOR in PublishOptions
+				if seq == math.MaxUint64 {
+					// seq++ would wrap around to 0 and store a record that is
+					// older than the current one.
+					return nil, ErrInvalidSequence
+				}
 				seq++
 			}
 		}
